@@ -743,6 +743,12 @@ func ConvertTypedValueToYANGType(schemaElem *sdcpb.SchemaElem, tv *sdcpb.TypedVa
 		case "enumeration":
 			return tv, nil
 		case "union":
+			// the value takes the representation of the first member type it fits, like the values a device
+			// reports do, whichever typed value the client chose to carry it in
+			if utv, err := ConvertUnion(TypedValueToString(tv), schemaElem.GetField().GetType().GetUnionTypes()); err == nil && utv != nil {
+				utv.Timestamp = tv.GetTimestamp()
+				return utv, nil
+			}
 			return tv, nil
 		case "boolean":
 			v, err := strconv.ParseBool(TypedValueToString(tv))
